@@ -146,7 +146,11 @@ pub fn run_isolated(prop: &str, src: &TapeSrc, cfg: &RunCfg, trace: bool) -> Chi
         if pid == 0 {
             // ---- child
             libc::close(fds[0]);
-            libc::alarm(20);
+            // watchdog: 20 s of CPU time (insensitive to how loaded the machine is) and, for a child that blocks without
+            // using any, 120 s of wall time
+            let tv = libc::itimerval { it_interval: libc::timeval { tv_sec: 0, tv_usec: 0 }, it_value: libc::timeval { tv_sec: 20, tv_usec: 0 } };
+            libc::setitimer(libc::ITIMER_PROF, &tv, std::ptr::null_mut());
+            libc::alarm(120);
             if std::env::var_os("VERIF_CHILD_STDERR").is_none() {
                 let devnull = libc::open(b"/dev/null\0".as_ptr() as *const libc::c_char, libc::O_WRONLY);
                 if devnull >= 0 {
@@ -198,7 +202,7 @@ pub fn run_isolated(prop: &str, src: &TapeSrc, cfg: &RunCfg, trace: bool) -> Chi
         libc::waitpid(pid, &mut status, 0);
         if libc::WIFSIGNALED(status) {
             let sig = libc::WTERMSIG(status);
-            if sig == libc::SIGALRM {
+            if sig == libc::SIGALRM || sig == libc::SIGPROF {
                 return ChildResult::Stuck;
             }
             return ChildResult::Crashed(sig);
